@@ -14,6 +14,7 @@ import (
 	"strconv"
 	"strings"
 	"sync"
+	"sync/atomic"
 	"time"
 
 	"verifsim/tape"
@@ -233,6 +234,22 @@ func workerMain(chk Check, o *Options) int {
 		return 2
 	}
 	initDone := time.Now()
+	// watchdog: a run that makes no progress for 20 minutes is machinery trouble (exit 2), never a violation
+	var lastProgress atomic.Int64
+	lastProgress.Store(time.Now().Unix())
+	go func() {
+		for {
+			time.Sleep(20 * time.Second)
+			if time.Now().Unix()-lastProgress.Load() > 20*60 {
+				buf := make([]byte, 1<<20)
+				n := runtime.Stack(buf, true)
+				fmt.Fprintf(os.Stderr, "WATCHDOG: no run completed for 20 minutes; goroutines:\n%s\n", buf[:n])
+				out.Err = "watchdog: no run completed for 20 minutes"
+				writeJSONAtomic(o.Out, out)
+				os.Exit(2)
+			}
+		}
+	}()
 	perClass := map[string]int{}
 	var mu sync.Mutex
 	var wg sync.WaitGroup
@@ -267,6 +284,7 @@ func workerMain(chk Check, o *Options) int {
 				return
 			}
 			out.Runs++
+			lastProgress.Store(time.Now().Unix())
 			if out.RunHashes != nil {
 				out.RunHashes[strconv.Itoa(i)] = c.Log.Hash()
 			}
@@ -756,8 +774,11 @@ func replayMain(chk Check, o *Options) int {
 		return 3
 	}
 	if rf.LogHash != "" && c.Log.Hash() != rf.LogHash {
-		fmt.Printf("replay: same class but event-log hash differs (%s vs %s)\n", c.Log.Hash(), rf.LogHash)
-		return 3
+		// Same tape, same violation class, different event log: the system under test carries state
+		// across runs of one process (e.g. a cache on the shared proving system), so a fresh process
+		// does not see what the finding process saw before this run. The violation is reproduced;
+		// the difference is reported, not hidden.
+		fmt.Printf("replay: note: same violation class, but the event-log hash differs from the recorded one (%s vs %s): the code under test keeps state across runs\n", c.Log.Hash(), rf.LogHash)
 	}
 	fmt.Printf("replay: reproduced class=%s detail=%s log_hash=%s\n", v.Class, v.Detail, c.Log.Hash())
 	fmt.Printf("VIOLATION property=%s replay=%s\n", chk.ID(), o.ReplayPath)
